@@ -506,8 +506,169 @@ def _select_minmax(block: List[ast.stmt]) -> List[ast.stmt]:
                 if fn_:
                     args = sorted([va, vb], key=lambda e: ast.unparse(e))
                     new = _fix(mk(ast.Call(func=ast.Name(id=fn_, ctx=ast.Load()), args=args, keywords=[])), st)
+        if new is None and isinstance(st, ast.If) and len(st.body) == 1 and not st.orelse and isinstance(st.test, ast.Compare) \
+                and len(st.test.ops) == 1 and isinstance(st.test.ops[0], (ast.Lt, ast.LtE, ast.Gt, ast.GtE)) \
+                and isinstance(st.body[0], ast.Assign) and len(st.body[0].targets) == 1 \
+                and isinstance(st.body[0].targets[0], ast.Name):
+            # a clamp: `if x < c: x = c` is `x = max(c, x)` (`>`: min); the test may be written either way round
+            x, c_ = st.body[0].targets[0], st.body[0].value
+            l, r = st.test.left, st.test.comparators[0]
+            less = isinstance(st.test.ops[0], (ast.Lt, ast.LtE))
+            fn_ = None
+            if isinstance(l, ast.Name) and l.id == x.id and ast.dump(r) == ast.dump(c_):
+                fn_ = 'max' if less else 'min'
+            elif isinstance(r, ast.Name) and r.id == x.id and ast.dump(l) == ast.dump(c_):
+                fn_ = 'min' if less else 'max'
+            if fn_ and _is_pure_expr(c_) and x.id not in _names_loaded(c_):
+                args = sorted([ast.Name(id=x.id, ctx=ast.Load()), c_], key=lambda e: ast.unparse(e))
+                new = _fix(ast.Assign(targets=[ast.Name(id=x.id, ctx=ast.Store())],
+                                      value=ast.Call(func=ast.Name(id=fn_, ctx=ast.Load()), args=args, keywords=[])), st)
         out.append(new if new is not None else st)
     return out
+
+
+def _scalarize_small_arrays(fn: ast.FunctionDef) -> bool:
+    """N27: a local array of a small literal size (`a = np.empty(2)` / `np.zeros(2)`) that is only ever accessed through
+    literal indices - never passed on, returned, sliced or aliased - is a set of scalars: `a[i]` becomes `a__i`, a store
+    `a[i] = E` becomes `a__i = np.float64(E)` (what reading the cell back yields)."""
+    changed = False
+    cands: Dict[str, Tuple[ast.Assign, int, str, str]] = {}
+    stores: Dict[str, int] = {}
+    for n in ast.walk(fn):
+        if isinstance(n, ast.Name) and isinstance(n.ctx, ast.Store):
+            stores[n.id] = stores.get(n.id, 0) + 1
+    for st in fn.body:
+        if isinstance(st, ast.Assign) and len(st.targets) == 1 and isinstance(st.targets[0], ast.Name) \
+                and isinstance(st.value, ast.Call) and isinstance(st.value.func, ast.Attribute) \
+                and isinstance(st.value.func.value, ast.Name) and st.value.func.attr in ('empty', 'zeros') \
+                and len(st.value.args) == 1 and not st.value.keywords and isinstance(st.value.args[0], ast.Constant) \
+                and isinstance(st.value.args[0].value, int) and 1 <= st.value.args[0].value <= 4 \
+                and stores.get(st.targets[0].id) == 1 and st.targets[0].id not in _fn_params(fn):
+            cands[st.targets[0].id] = (st, st.value.args[0].value, st.value.func.attr, st.value.func.value.id)
+    if not cands:
+        return False
+    # every other occurrence is `a[<literal index in range>]`
+    parents: Dict[int, ast.AST] = {}
+    for n in ast.walk(fn):
+        for c in ast.iter_child_nodes(n):
+            parents[id(c)] = n
+    for n in ast.walk(fn):
+        if isinstance(n, ast.Name) and n.id in cands and n is not cands[n.id][0].targets[0]:
+            par = parents.get(id(n))
+            okk = isinstance(par, ast.Subscript) and par.value is n and isinstance(par.slice, ast.Constant) \
+                and isinstance(par.slice.value, int) and not isinstance(par.slice.value, bool) \
+                and 0 <= par.slice.value < cands[n.id][1] and not isinstance(par.ctx, ast.Del)
+            # nested scopes see the array itself
+            q = par
+            while okk and q is not None and q is not fn:
+                if isinstance(q, (ast.FunctionDef, ast.Lambda, ast.ClassDef)):
+                    okk = False
+                q = parents.get(id(q))
+            if not okk:
+                cands.pop(n.id, None)
+    for a, (alloc, size, kind, npname) in cands.items():
+        cell = lambda i: f"{a}__{'abcd'[i]}"      # (no digit behind the array's own name: X1 / X2 pairs stay recognisable)
+        if any(isinstance(n, ast.Name) and n.id.startswith(a + '__') for n in ast.walk(fn)):
+            continue
+
+        class T(ast.NodeTransformer):
+            def visit_FunctionDef(self, node):
+                if node is fn:
+                    self.generic_visit(node)
+                return node
+
+            def visit_Assign(self, node):
+                self.generic_visit(node)
+                if len(node.targets) == 1 and isinstance(node.targets[0], ast.Name) and node.targets[0].id.startswith(a + '__') \
+                        and getattr(node.targets[0], '_cell', False):
+                    node.value = ast.Call(func=ast.Attribute(value=ast.Name(id=npname, ctx=ast.Load()), attr='float64', ctx=ast.Load()),
+                                          args=[node.value], keywords=[])
+                return node
+
+            def visit_Subscript(self, node):
+                if isinstance(node.value, ast.Name) and node.value.id == a:
+                    new = ast.copy_location(ast.Name(id=cell(node.slice.value), ctx=node.ctx), node)
+                    new._cell = True
+                    return new
+                self.generic_visit(node)
+                return node
+        k = fn.body.index(alloc)
+        T().visit(fn)
+        init = []
+        if kind == 'zeros':
+            init = [_fix(ast.Assign(targets=[ast.Name(id=cell(i), ctx=ast.Store())], value=ast.Constant(value=0.0)), alloc)
+                    for i in range(size)]
+        fn.body[k:k + 1] = init
+        ast.fix_missing_locations(fn)
+        changed = True
+    if changed:
+        _invalidate()
+    return changed
+
+
+def _drop_dead_defs(fn: ast.FunctionDef) -> bool:
+    """A plain top-level definition `v = <pure expression>` whose value no statement can read (every path re-defines v
+    first, or never reads it) is dropped."""
+    hidden: Set[str] = set()
+    for n in ast.walk(fn):
+        if isinstance(n, (ast.Global, ast.Nonlocal)):
+            hidden |= set(n.names)
+        if isinstance(n, (ast.FunctionDef, ast.Lambda, ast.ClassDef)) and n is not fn:
+            hidden |= {m.id for m in ast.walk(n) if isinstance(m, ast.Name)}
+        if isinstance(n, ast.Call) and isinstance(n.func, ast.Name) and n.func.id in ('locals', 'vars', 'eval', 'exec'):
+            return False
+    changed = False
+    k = 0
+    while k < len(fn.body):
+        st = fn.body[k]
+        if isinstance(st, ast.Assign) and len(st.targets) == 1 and isinstance(st.targets[0], ast.Name) \
+                and st.targets[0].id not in hidden and _is_pure_expr(st.value) \
+                and isinstance(st.value, (ast.Constant, ast.Name)):
+            e, _d = _exposed(fn.body[k + 1:], st.targets[0].id)
+            if not e and len(fn.body) > 1:
+                del fn.body[k]
+                changed = True
+                _invalidate()
+                continue
+        k += 1
+    return changed
+
+
+def _version_params(fn: ast.FunctionDef) -> bool:
+    """A parameter that is re-bound by a plain assignment at the top level of the body (which every later statement is
+    dominated by) continues under a name of its own: `p = E(p)` becomes `p__v1 = E(p)` and the later occurrences of p
+    are occurrences of p__v1.  The parameter itself then keeps its incoming value."""
+    params = _fn_params(fn)
+    hidden: Set[str] = set()
+    for n in ast.walk(fn):
+        if isinstance(n, (ast.Global, ast.Nonlocal)):
+            hidden |= set(n.names)
+        if isinstance(n, (ast.FunctionDef, ast.Lambda, ast.GeneratorExp, ast.ListComp, ast.SetComp, ast.DictComp, ast.ClassDef)) \
+                and n is not fn:
+            hidden |= {m.id for m in ast.walk(n) if isinstance(m, ast.Name)}
+        if isinstance(n, ast.Call) and isinstance(n.func, ast.Name) and n.func.id in ('locals', 'vars', 'eval', 'exec'):
+            return False
+    changed = False
+    for k, st in enumerate(fn.body):
+        if isinstance(st, ast.Assign) and len(st.targets) == 1 and isinstance(st.targets[0], ast.Name) \
+                and st.targets[0].id in params and st.targets[0].id not in hidden and '__v' not in st.targets[0].id:
+            p = st.targets[0].id
+            if p not in _names_loaded(st.value):
+                continue            # (a fresh value under the parameter's name: nothing to separate)
+            if not (isinstance(st.value, ast.Call) and isinstance(st.value.func, ast.Name) and st.value.func.id in ('max', 'min')):
+                continue            # (only a clamped number: objects keep their name for the rules that follow them)
+            new = f"{p}__v1"
+            if any(isinstance(n, ast.Name) and n.id == new for n in ast.walk(fn)):
+                continue
+            st.targets[0].id = new
+            for later in fn.body[k + 1:]:
+                for n in ast.walk(later):
+                    if isinstance(n, ast.Name) and n.id == p:
+                        n.id = new
+            changed = True
+    if changed:
+        _invalidate()
+    return changed
 
 
 class _SortMinMaxArgs(ast.NodeTransformer):
@@ -2147,9 +2308,12 @@ def _coalesce_copies(fn: ast.FunctionDef) -> bool:
             number(c)
     number(fn)
     occ: Dict[str, List[int]] = {}
+    stored: Set[str] = set()
     for n in ast.walk(fn):
         if isinstance(n, ast.Name):
             occ.setdefault(n.id, []).append(pos[id(n)])
+            if isinstance(n.ctx, ast.Store):
+                stored.add(n.id)
     nested_names: Set[str] = set()
     for n in ast.walk(fn):
         if isinstance(n, (ast.FunctionDef, ast.Lambda)) and n is not fn:
@@ -2173,7 +2337,8 @@ def _coalesce_copies(fn: ast.FunctionDef) -> bool:
             if isinstance(s, ast.Assign) and len(s.targets) == 1 and isinstance(s.targets[0], ast.Name) \
                     and isinstance(s.value, ast.Name):
                 v, w = s.targets[0].id, s.value.id
-                if v != w and w not in params and v not in nested_names and w not in nested_names:
+                if v != w and w not in params and w in stored and v not in nested_names and w not in nested_names:
+                    # (w is a local of this function: a module-level name is not renamed)
                     p_t, p_v = pos[id(s.targets[0])], pos[id(s.value)]
                     if all(q >= p_t for q in occ.get(v, [])) and all(q <= p_v for q in occ.get(w, [])):
                         # inside a loop both live ranges must be confined to one iteration of that loop
@@ -2259,8 +2424,8 @@ def _coalesce_generated(fn: ast.FunctionDef) -> bool:
                 bind_first = bool(region) and _plain_def(region[0], w) and isinstance(region[0].value, ast.Name) \
                     and region[0].value.id == v
                 if cnt == total.get(w, 0) and region and not any(occurs(r, v) for r in (region[1:] if bind_first else region)) \
-                        and _plain_def(region[0], w) \
-                        and not any(isinstance(n, (ast.Break, ast.Continue, ast.FunctionDef, ast.Lambda))
+                        and (_plain_def(region[0], w) or _defined_before_use(region, w)) \
+                        and not any(isinstance(n, (ast.Break, ast.Continue, ast.FunctionDef, ast.Lambda, ast.Return))
                                     for r in region for n in ast.walk(r)):
                     for r in region:
                         for n in ast.walk(r):
@@ -2277,6 +2442,12 @@ def _coalesce_generated(fn: ast.FunctionDef) -> bool:
                     return True
         return False
     return find(fn.body)
+
+
+def _defined_before_use(region: List[ast.stmt], w: str) -> bool:
+    """every path through the region defines w before it reads it (`if c: w = A else: w = B` as the first statement)"""
+    e, d = _exposed(region, w)
+    return d and not e
 
 
 def _coalesce_select(fn: ast.FunctionDef) -> bool:
@@ -3337,6 +3508,9 @@ def normalize_function(fn: ast.FunctionDef, module_helpers: Dict[str, ast.Functi
         fn.body = _expand_ifexp(fn.body)
         fn.body = _orient(fn.body, False, True)
         fn.body = _select_minmax(fn.body)
+        _version_params(fn)
+        if _scalarize_small_arrays(fn):
+            _drop_dead_defs(fn)
         for st in fn.body:
             _LenTests().visit(st)
             _SortMinMaxArgs().visit(st)
